@@ -2,7 +2,10 @@ module verif
 
 go 1.26.8
 
-require github.com/folbricht/desync v0.0.0
+require (
+	github.com/folbricht/desync v0.0.0
+	github.com/pkg/xattr v0.4.9
+)
 
 require (
 	cloud.google.com/go v0.110.0 // indirect
@@ -32,7 +35,6 @@ require (
 	github.com/modern-go/reflect2 v1.0.2 // indirect
 	github.com/pkg/errors v0.9.1 // indirect
 	github.com/pkg/sftp v1.13.5 // indirect
-	github.com/pkg/xattr v0.4.9 // indirect
 	github.com/rivo/uniseg v0.2.0 // indirect
 	github.com/sirupsen/logrus v1.9.0 // indirect
 	go.opencensus.io v0.24.0 // indirect
